@@ -326,6 +326,7 @@ def main():
     C = agg["counters"]
     # mismatch classes counted by the harness beyond the first five printed per class are already in mismatches
     confirmed = []
+    incomplete_notes = []
     os.makedirs(os.path.join(VERIF, "replays", prop), exist_ok=True)
     seen_cls = set()
     for proc, m in violations:
@@ -342,6 +343,11 @@ def main():
                 if m["cls"] not in clss:
                     ok = False
         if not ok:
+            if m["cls"] == "CRASH:TIMEOUT":
+                # a case that ran out of its watchdog under load but completes when replayed alone: the exploration is
+                # incomplete (never called exhaustive), not a verdict on the code and not a nondeterminism of the engine
+                incomplete_notes.append("watchdog expired on case %s but it completes when replayed alone" % m["case"][:300])
+                continue
             engine_errors.append("mismatch %s not reproduced by replay of case %s" % (m["cls"], m["case"][:300]))
             continue
         hid = hashlib.sha1((proc["unit"] + m["cls"] + m["case"]).encode()).hexdigest()[:10]
@@ -359,7 +365,7 @@ def main():
     traces = int(C.get("ev.traces", 0))
     evals = int(C.get("ev.evaluations", transitions))
     nontrivial = int(C.get("ev.nontrivial", states))
-    incomplete = int(C.get("ev.incomplete", 0))
+    incomplete = int(C.get("ev.incomplete", 0)) + len(incomplete_notes)
     ev = {
         "property_id": prop,
         "tier": tier,
@@ -393,6 +399,8 @@ def main():
     print("%s %s: states=%d transitions=%d traces=%d evaluations=%d nontrivial=%d exhaustive=%s known=%d violations=%d wall=%.1fs"
           % (prop, tier, states, transitions, traces, evals, nontrivial, ev["coverage"]["exhaustive"], len(known),
              len(confirmed), wall), flush=True)
+    for e in incomplete_notes:
+        print("INCOMPLETE " + e)
     for e in engine_errors:
         print("ENGINE-ERROR " + e)
     if confirmed:
